@@ -18,7 +18,7 @@ def main():
     meta = json.load(open(mp))
     out = {'at': time.strftime('%Y-%m-%dT%H:%M:%S')}
     sh('git -C /repo worktree remove --force %s; git -C /repo worktree prune' % wt)
-    rc, o = sh('/tmp/mkseedwt.sh %s' % wt)
+    rc, o = sh(os.path.join(os.path.dirname(os.path.abspath(__file__)), 'mkseedwt.sh') + ' %s' % wt)
     if rc != 0:
         print('worktree failed', o[-500:]); return 2
     try:
